@@ -878,8 +878,8 @@ class BlockLevel:
             loads, stores = _loads_stores(self.fn)
             if not appends or stores.get(name) != 1 or loads.get(name) != len(appends) + 1:
                 continue
-            if any(ast.dump(n) == x for m in mid for n in ast.walk(m) if isinstance(n, (ast.Name, ast.Attribute))):
-                continue
+            if any(ast.dump(_load(n)) == x for m in mid for n in ast.walk(m) if isinstance(n, (ast.Name, ast.Attribute))):
+                continue  # (x is read or written in between, in whatever context: the order of the additions would change)
             if any(isinstance(n, (ast.FunctionDef, ast.Lambda)) for m in mid for n in ast.walk(m)):
                 continue
             for c in appends:
@@ -1366,6 +1366,8 @@ def _inline_body(helper: ast.FunctionDef, call: ast.Call, is_method: bool, tag: 
     a = helper.args
     if a.vararg or a.kwarg:
         return None
+    if any(not (isinstance(d, ast.Name) and d.id == 'staticmethod') for d in helper.decorator_list):
+        return None  # (a decorated helper is whatever its decorator makes of it)
     positional = [x.arg for x in a.posonlyargs + a.args]
     if is_method:
         positional = positional[1:]
@@ -1580,7 +1582,8 @@ def inline_unknown_helpers(tree: ast.Module, path: str) -> None:
                             continue
                         if result is None:
                             result = ast.Constant(value=None)
-                        if isinstance(st, ast.Assign) and len(st.targets) == 1 and isinstance(st.targets[0], ast.Name) and isinstance(result, ast.Name) and result.id.endswith(f'__h{counter[0]}'):
+                        if isinstance(st, ast.Assign) and len(st.targets) == 1 and isinstance(st.targets[0], ast.Name) and isinstance(result, ast.Name) and result.id.endswith(f'__h{counter[0]}') \
+                                and not any(isinstance(n_, ast.Name) and n_.id == st.targets[0].id for b_ in body for n_ in ast.walk(b_)):
                             # `t = helper()` whose helper returns one of its locals: that local is t
                             old_name, new_name = result.id, st.targets[0].id
                             for b_ in body:
@@ -1640,6 +1643,9 @@ def inline_unknown_helpers(tree: ast.Module, path: str) -> None:
             expand_in(node, {})
         elif isinstance(node, ast.ClassDef):
             helpers = {f.name: f for f in node.body if isinstance(f, ast.FunctionDef) and f'{path}::{node.name}.{f.name}' not in inv}
+            # a method that another class of the module defines too may be an override: `self.m()` is then not the body seen here
+            elsewhere = {f.name for c in tree.body if isinstance(c, ast.ClassDef) and c is not node for f in c.body if isinstance(f, ast.FunctionDef)}
+            helpers = {k: v for k, v in helpers.items() if k not in elsewhere}
             for f in node.body:
                 if isinstance(f, ast.FunctionDef):
                     for g in nested(f):
@@ -1816,9 +1822,12 @@ def _propagate_new_aliases(tree: ast.Module, path: str, inv) -> None:
                     continue
                 if '.' in chain:
                     def touches(c: ast.Call) -> bool:
-                        if isinstance(c.func, ast.Attribute) and isinstance(c.func.value, ast.Name) and c.func.value.id == root:
+                        # a method call on the root object or on any object on the way to the attribute (`self.database.build_panel_map()`
+                        # for `self.database.individualMap`), or a call that is handed one of them
+                        on_the_way = prefixes | {root}
+                        if isinstance(c.func, ast.Attribute) and _is_chain(c.func.value) and ast.unparse(c.func.value) in on_the_way:
                             return True
-                        return any(isinstance(a, ast.Name) and a.id == root for a in list(c.args) + [k.value for k in c.keywords])
+                        return any(_is_chain(a) and ast.unparse(a) in on_the_way for a in list(c.args) + [k.value for k in c.keywords])
                     risky = {cfg.node_of(c) for c in ast.walk(fn) if isinstance(c, ast.Call) and id(c) not in inner and touches(c)} - {None}
                     between = {r for r in risky if r != nd and cfg.reaches(nd, r) and any(cfg.path_avoiding(r, u, {nd}) for u in use_nodes)}
                     # (a use in the same statement as such a call is evaluated with it: also refused)
